@@ -90,7 +90,7 @@ fn parse_args(v: &[String]) -> Args {
     a
 }
 
-const IMPORTS: &str = "From TF Require Import Values Show WfIR.";
+const IMPORTS: &str = "From TF Require Import Values Show WfIR WfNoPanic.";
 const TEST_DATA: &str = "/repo/trustfall_core/test_data";
 
 // ------------------------------------------------------------------ rendering (mirrors Indexed.v)
@@ -504,7 +504,7 @@ fn emit_wf(out: &mut Out, s: &Src, from_frontend: bool) {
     out.add_spec(
         Case {
             input: s.input.clone(),
-            coq: format!("show_wf {printed}"),
+            coq: format!("show_wf_np {printed}"), // wf_ir && np_extra (operand arity, depth-first numbering)
             imp: "WF".to_string(),
             nontrivial: s.features >= 2,
             key: format!("wf:{}", printed),
